@@ -40,6 +40,16 @@ pub fn check(_ctx: &Ctx, st: &mut Stats, c: &Case) {
         }
     };
     st.decided += 1;
+    // history-independence probe: the same point as the FIRST Qibla computed on a fresh thread
+    if st.decided % 64 == 0 || lat == 0.0 && st.decided % 4 == 0 {
+        let f = std::thread::scope(|s| s.spawn(|| guarded(|| Qibla::new(coords(c.elev.0)).degrees())).join());
+        st.count("history_probe.first_call_on_fresh_thread");
+        if let Ok(Ok(fd)) = f {
+            if fd.to_bits() != deg.to_bits() {
+                st.violate("result_depends_on_call_history", c, json!({"in_sequence": deg, "first_call_on_fresh_thread": fd}));
+            }
+        }
+    }
     let want = o::qibla_bearing(lat, lon);
     // compare on the circle (a bearing of 179.9999999 vs -179.9999999 is the same direction)
     let d = o::norm180(deg - want);
@@ -85,10 +95,16 @@ fn gen_case(r: &mut Rng) -> Case {
             (-21.423333 + rad * th.cos(), -140.176667 + rad * th.sin() / 21.423333_f64.to_radians().cos())
         }
         6 => (0.0, gen::any_lon(r)),
+        7 => {
+            // as close to a pole as the open interval allows: 90 - 10^-u, u in [3, 13]
+            let u = r.range(3.0, 13.0);
+            ((90.0 - 10f64.powf(-u)) * r.sign(), gen::any_lon(r))
+        }
         _ => (r.range(-89.999, 89.999), gen::any_lon(r)),
     };
+    let lim = 90.0 - 1e-13;
     Case {
-        lat: X(lat.clamp(-89.999, 89.999)),
+        lat: X(lat.clamp(-lim, lim)),
         lon: X(lon.clamp(-180.0, 180.0)),
         elev: X(gen::any_elev(r)),
         elev2: X(gen::any_elev(r)),
